@@ -15,6 +15,14 @@ package polyjson
 // inside strings) together with integers beyond 2^53, which are not all
 // float64 values: every integer must come back exactly.
 //
+// A further part of the records (c15WrapperRecord) has location trees with the
+// kinds of node the other parts never draw: a plain node (neither Join nor
+// Complement, no bounds) around a single operand, at the root or below it,
+// single operands under flagged nodes, several operands without the Join flag.
+// Every node must come back as written (classes wrapper-node-at-root,
+// wrapper-node-inside, single-operand-node-with-flags-or-bounds,
+// several-operands-without-join-flag).
+//
 // Besides single round trips on a path there are HISTORIES on one path: three
 // different documents are written to the same path one after the other and the
 // path is read after every write; each Read must give the document written
@@ -24,6 +32,7 @@ package polyjson
 
 import (
 	"bytes"
+	"encoding/json"
 	"fmt"
 	"io/ioutil"
 	"math/rand"
@@ -134,6 +143,168 @@ func c15LocDepth(l poly.Location) int {
 		}
 	}
 	return d
+}
+
+// c15Kinds says which kinds of node with operands c15LocW may draw besides the
+// Join node of 2..4 operands that c15Loc draws.
+type c15Kinds struct {
+	rootWrapper  bool // at the root: a plain node (neither Join nor Complement, Start == End == 0) around ONE operand
+	innerWrapper bool // the same below the root
+	single       bool // ONE operand under a node that has the Join flag, the Complement flag or bounds of its own
+	multi        bool // 2..3 operands under a node without the Join flag
+}
+
+// c15LocW draws a location structure valid for a sequence of length n, nested
+// at most depth deep, like c15Loc but with the further kinds of node that
+// kinds allows. Whatever its flags and bounds, a node with operands stands for
+// the concatenation of its operands (reverse complemented under Complement):
+// that is how the code base reads it, and c15EvalLoc likewise. The partial
+// flags are drawn on every node.
+func c15LocW(rng *rand.Rand, n, depth int, kinds c15Kinds, root bool) poly.Location {
+	l := poly.Location{FivePrimePartial: rng.Intn(3) == 0, ThreePrimePartial: rng.Intn(3) == 0}
+	if depth == 0 || rng.Intn(4) == 0 {
+		l.Complement = rng.Intn(3) == 0
+		if n > 0 {
+			l.Start = rng.Intn(n)
+			l.End = l.Start + 1 + rng.Intn(n-l.Start)
+		}
+		if rng.Intn(2) == 0 {
+			l.SubLocations = []poly.Location{}
+		}
+		return l
+	}
+	choices := []int{0}
+	if root && kinds.rootWrapper || !root && kinds.innerWrapper {
+		choices = append(choices, 1, 1)
+	}
+	if kinds.single {
+		choices = append(choices, 2)
+	}
+	if kinds.multi {
+		choices = append(choices, 3)
+	}
+	operands := 1
+	switch choices[rng.Intn(len(choices))] {
+	case 0:
+		l.Join, l.Complement, operands = true, rng.Intn(3) == 0, 2+rng.Intn(3)
+	case 1: // plain wrapper
+	case 2:
+		switch rng.Intn(4) {
+		case 0:
+			l.Join = true
+		case 1:
+			l.Complement = true
+		case 2:
+			l.Join, l.Complement = true, true
+		default: // bounds of its own, which nothing reads
+			l.Start = rng.Intn(n + 1)
+			l.End = l.Start + rng.Intn(n-l.Start+1)
+			if l.Start == 0 && l.End == 0 {
+				l.End = n
+			}
+		}
+	default:
+		l.Complement, operands = rng.Intn(3) == 0, 2+rng.Intn(2)
+	}
+	for i := 0; i < operands; i++ {
+		l.SubLocations = append(l.SubLocations, c15LocW(rng, n, depth-1, kinds, false))
+	}
+	return l
+}
+
+// c15LocShape names the kind of node, among those only c15LocW draws, that the
+// location trees of a record contain ("" if none): it becomes the class of a
+// difference in a location or in a feature's sequence.
+func c15LocShape(rec *poly.Sequence) string {
+	found := [4]bool{}
+	var walk func(l poly.Location, root bool)
+	walk = func(l poly.Location, root bool) {
+		plain := !l.Join && !l.Complement && l.Start == 0 && l.End == 0
+		switch {
+		case len(l.SubLocations) == 1 && plain && root:
+			found[0] = true
+		case len(l.SubLocations) == 1 && plain:
+			found[1] = true
+		case len(l.SubLocations) == 1:
+			found[2] = true
+		case len(l.SubLocations) > 1 && !l.Join:
+			found[3] = true
+		}
+		for _, k := range l.SubLocations {
+			walk(k, false)
+		}
+	}
+	for _, f := range rec.Features {
+		walk(f.SequenceLocation, true)
+	}
+	for i, class := range []string{"wrapper-node-at-root", "wrapper-node-inside", "single-operand-node-with-flags-or-bounds", "several-operands-without-join-flag"} {
+		if found[i] {
+			return class
+		}
+	}
+	return ""
+}
+
+// c15WrapperRecord gives a small record (0..2 references, 1..3 features,
+// sequence length 1..60) whose location trees, at most 4 deep, hold nodes with
+// operands other than the Join of 2..4 operands; six variants in turn.
+func c15WrapperRecord(rng *rand.Rand, i int) (*poly.Sequence, string) {
+	sh := c15Shape{refs: rng.Intn(3), refsNil: rng.Intn(2) == 0, other: rng.Intn(4), features: 1 + rng.Intn(3), attrs: rng.Intn(4), depth: 0, seqLen: 1 + rng.Intn(60)}
+	s := c15Record(rng, sh)
+	all := c15Kinds{true, true, true, true}
+	variant := i % 6
+	var text string
+	for k := range s.Features {
+		depth := 1 + rng.Intn(4)
+		var l poly.Location
+		switch variant {
+		case 0: // one plain wrapper, at the root of the first feature, around a tree of Join nodes and spans
+			text = "first feature: plain node (no Join, no Complement, Start = End = 0, partial flags drawn) around one operand, which is a span or a tree of Join nodes; other features spans and Join nodes only"
+			l = c15LocW(rng, sh.seqLen, depth-1, c15Kinds{}, false)
+			if k == 0 {
+				l = poly.Location{FivePrimePartial: rng.Intn(2) == 0, ThreePrimePartial: rng.Intn(2) == 0, SubLocations: []poly.Location{l}}
+			}
+		case 1: // every feature: plain wrapper at the root around any tree
+			text = "every feature: plain node at the root around one operand, which is any tree (plain nodes, single operands under flags, several operands without Join flag)"
+			l = poly.Location{FivePrimePartial: rng.Intn(2) == 0, ThreePrimePartial: rng.Intn(2) == 0, SubLocations: []poly.Location{c15LocW(rng, sh.seqLen, depth-1, all, false)}}
+		case 2: // plain wrappers below the root only
+			text = "plain nodes around one operand below the root only (the root is a span or a Join)"
+			for try := 0; try < 50; try++ {
+				l = c15LocW(rng, sh.seqLen, 2+rng.Intn(3), c15Kinds{innerWrapper: true}, true)
+				if k > 0 || c15LocShape(&poly.Sequence{Features: []poly.Feature{{SequenceLocation: l}}}) != "" {
+					break
+				}
+			}
+		case 3: // single operand under a node with flags or bounds
+			text = "one operand under a node with the Join flag, the Complement flag, both, or bounds of its own; at the root of the first feature and anywhere else"
+			l = c15LocW(rng, sh.seqLen, depth, c15Kinds{single: true}, true)
+			if k == 0 {
+				l = c15LocW(rng, sh.seqLen, depth-1, c15Kinds{single: true}, false)
+				l = poly.Location{Join: rng.Intn(2) == 0, FivePrimePartial: rng.Intn(3) == 0, ThreePrimePartial: rng.Intn(3) == 0, SubLocations: []poly.Location{l}}
+				if l.Complement = !l.Join || rng.Intn(2) == 0; rng.Intn(3) == 0 {
+					l.Start, l.End = 0, sh.seqLen
+				}
+			}
+		case 4: // several operands without the Join flag
+			text = "nodes of 2..3 operands without the Join flag; at the root of the first feature and anywhere else"
+			l = c15LocW(rng, sh.seqLen, depth, c15Kinds{multi: true}, true)
+			if k == 0 {
+				l = poly.Location{Complement: rng.Intn(3) == 0, SubLocations: []poly.Location{c15LocW(rng, sh.seqLen, depth-1, c15Kinds{multi: true}, false), c15LocW(rng, sh.seqLen, depth-1, c15Kinds{multi: true}, false)}}
+			}
+		default:
+			text = "all kinds of node anywhere"
+			l = c15LocW(rng, sh.seqLen, depth, all, true)
+		}
+		s.Features[k].SequenceLocation = l
+	}
+	depth := 0
+	for _, f := range s.Features {
+		if d := c15LocDepth(f.SequenceLocation); d > depth {
+			depth = d
+		}
+	}
+	first, _ := json.Marshal(s.Features[0].SequenceLocation)
+	return s, fmt.Sprintf("wrapper-node record #%d: %d features, sequence length %d, location depth up to %d; %s; location of the first feature (JSON form): %s", i, len(s.Features), len(s.Sequence), depth, text, first)
 }
 
 func c15RC(s string) string {
@@ -472,10 +643,24 @@ func c15RoundTrip(vr, vl *verifRun, rec *poly.Sequence, path, what, historyClass
 	if historyClass != "" {
 		cls = func(string) string { return historyClass }
 	}
+	// a record with kinds of location node that only c15LocW draws: a difference
+	// in a location, or in what a feature reports, is classed by that kind
+	shape := c15LocShape(rec)
+	if historyClass != "" {
+		shape = ""
+	}
 	if d := c15Diff("Sequence", reflect.ValueOf(*rec), reflect.ValueOf(got)); d != "" {
-		vr.Fail(cls(c15ClassOf(d)), what, c15Clip(d))
+		class := cls(c15ClassOf(d))
+		if shape != "" && strings.Contains(d, ".SequenceLocation") {
+			class = shape
+		}
+		vr.Fail(class, what, c15Clip(d))
 	}
 
+	lcls := cls
+	if shape != "" {
+		lcls = func(string) string { return shape }
+	}
 	// relink, through Parse on the bytes of the file
 	vl.Case(what, len(rec.Features) > 0)
 	if err != nil {
@@ -504,12 +689,12 @@ func c15RoundTrip(vr, vl *verifRun, rec *poly.Sequence, path, what, historyClass
 			}
 			var s string
 			if p := c15Try(func() { s = f.GetSequence() }); p != "" {
-				vl.Fail(cls("getsequence-panic"), what, fmt.Sprintf("%s: feature %d: %s", name, k, p))
+				vl.Fail(lcls("getsequence-panic"), what, fmt.Sprintf("%s: feature %d: %s", name, k, p))
 				break
 			}
 			before := rec.Features[k].GetSequence()
 			if s != want[k] || s != before {
-				vl.Fail(cls("feature-sequence-differs"), what, fmt.Sprintf("%s: feature %d gives %s, before serialisation %s, independent evaluation %s", name, k, c15Clip(s), c15Clip(before), c15Clip(want[k])))
+				vl.Fail(lcls("feature-sequence-differs"), what, fmt.Sprintf("%s: feature %d gives %s, before serialisation %s, independent evaluation %s", name, k, c15Clip(s), c15Clip(before), c15Clip(want[k])))
 				break
 			}
 		}
@@ -959,7 +1144,9 @@ func TestVerifC15(t *testing.T) {
 	nRandom, nGb, nGff := 15000, 10000, 10000
 	longLens, longPer := []int{70000, 200000}, 4
 	nHistory, nName := 400, 800
+	nWrap := 1800
 	if verifThorough() {
+		nWrap = 90000
 		nName = 40000
 		nRandom, nGb, nGff = 600000, 400000, 400000
 		nHistory = 20000
@@ -973,12 +1160,15 @@ func TestVerifC15(t *testing.T) {
 	seed := verifSeed()
 
 	content := "every Meta, Locus, Reference, Feature and Sequence field filled from a pool of ASCII, punctuation (quotes, backslash, <, &, tab, newline, NUL, U+2028) and non-ASCII text (Latin-1, CJK, Greek, 4-byte code points, combining marks; valid UTF-8 only, JSON text cannot carry anything else), ints incl. 0, negative and 63-bit; " +
-		"location structures valid for the sequence, Join nodes of 2..4 operands nested to depth 4, Complement and both partial flags on any node, leaf SubLocations nil or empty; sequences over ACGT"
+		"location structures valid for the sequence, Join nodes of 2..4 operands nested to depth 4 (other kinds of node with operands in the wrapper-node part), Complement and both partial flags on any node, leaf SubLocations nil or empty; sequences over ACGT"
 	axes := "systematic part: every combination of references {0 nil, 0 empty, 1, 5} x Other {nil, empty, 1 key, several} x Features {nil, empty, 1, 3} x attributes {nil, empty, 1, several} x location depth {0..4} (1280 shapes, content random); " +
 		"random part: " + strconv.Itoa(nRandom) + " seeded records, 0..5 references, 0..6 features, sequence length 0..300; " +
 		"long part: " + strconv.Itoa(longPer) + " records for each sequence length in " + fmt.Sprint(longLens) + " (0..2 references, 1..3 features or none, location depth 0..2; Write puts the sequence on ONE line of the file, beyond 64 KiB from about 65.5 kb on; a failure on a file with such a line is classed sequence-beyond-64k); " +
 		"Name-text part: " + strconv.Itoa(nName) + " seeded records (0..2 references, 1..3 features, first location a Join of depth 1..2, sequence length 1..40) that carry the text Name - as an attribute key with value thrL (what the GFF reader stores for Name=thrL), as a key of Meta.Other, as the whole value of Feature.Type or Feature.Name, inside Description as Name=thrL, or inside Meta.Definition between double quotes; the eight combinations {each alone, attribute key + Type, Other key + Description + Feature.Name} in turn - " +
 		"and at least one integer beyond 2^53 in magnitude (2^53+1 = 9007199254740993, 2^53+3, 2^62+12345, -(2^53+1), the largest and smallest int, random odd values up to 2^54 of either sign) in Meta.RegionStart, RegionEnd, Size or the Start/End of a Join node (which no evaluation of a location reads); every integer must come back exactly; a difference in an integer field whose written value is beyond 2^53 is classed integer-beyond-2-53 in every part; " +
+		"wrapper-node part: " + strconv.Itoa(nWrap) + " seeded records (0..2 references, 1..3 features, sequence length 1..60, location trees to depth 4) with the kinds of node with operands that the other parts never draw: a plain node (neither Join nor Complement, Start = End = 0, partial flags drawn) around ONE operand at the root or below it, chains of such nodes, ONE operand under a node carrying the Join flag, the Complement flag, both or bounds of its own, and 2..3 operands under a node without the Join flag; " +
+		"six variants in turn: (1) a plain node at the root of the first feature around a span or a tree of Join nodes, (2) a plain node at the root of every feature around any tree, (3) plain nodes below the root only, (4) single operands under flagged or bounded nodes, (5) several operands without Join flag, (6) all kinds anywhere; every node must come back with its flags, bounds and operands, and the feature must report the concatenation of its operands as before; " +
+		"a difference inside a location or in a feature's sequence is classed by the first of these kinds the record contains: wrapper-node-at-root, wrapper-node-inside, single-operand-node-with-flags-or-bounds, several-operands-without-join-flag; " +
 		"history part: " + strconv.Itoa(nHistory) + " seeded histories on ONE path (fresh at the start of each history): three different documents (0..3 references, 0..4 features or none, sequence length 1..300) are written to it one after the other and the path is read after every write, every Read must give the document written last; " +
 		"five variants in turn: (a) unrelated records brought to exactly the same byte size (ASCII letters appended to Description) with the modification time set to the same whole second by os.Chtimes after every write, (b) same byte size, time left to the file system, (c) byte size different from one write to the next, time pinned, " +
 		"(d) a record, then the same record with every base of its sequence replaced, then the first record again, same size, time pinned, (e) size and time as they come; size and time are confirmed with os.Stat before each Read; a failure at the 2nd or 3rd step is classed path-reused-same-size-and-mtime (a, d), path-reused-same-size (b), path-reused-same-mtime (c), path-reused (e); " +
@@ -1044,6 +1234,11 @@ func TestVerifC15(t *testing.T) {
 			rngHist := rand.New(rand.NewSource(seed*7919 + 2000 + int64(w))) // own stream as well
 			for i := w; i < nHistory; i += workers {
 				c15CheckHistory(t, vr, vl, dir, w, rngHist, seed, i)
+			}
+			rngWrap := rand.New(rand.NewSource(seed*7919 + 4000 + int64(w))) // own stream as well
+			for i := w; i < nWrap; i += workers {
+				rec, what := c15WrapperRecord(rngWrap, i)
+				c15RoundTrip(vr, vl, rec, filepath.Join(dir, "c15-"+strconv.Itoa(w)+".json"), fmt.Sprintf("%s (VERIF_SEED %d)", what, seed), "", nil)
 			}
 			rngName := rand.New(rand.NewSource(seed*7919 + 3000 + int64(w))) // own stream as well
 			for i := w; i < nName; i += workers {
